@@ -193,6 +193,9 @@ def errors(repo):
     count_guard = _eval(cg.group(2), env, "flush count") if cg else None
     nx = _body(t, r"static\s+void\s+ERROR_nexterror\s*\(\s*\)\s*\{", "ERROR_nexterror")
     next_guard = bool(re.search(r"if\s*\(\s*ERROR_string\s*==\s*ERROR_string_end\s*\)\s*\{\s*return", nx))
+    next_writes = len(re.findall(r"\*\s*ERROR_string\s*(?:\+\+)?\s*=[^=]", nx)) + len(re.findall(r"ERROR_string\s*\[[^\]]*\]\s*=[^=]", nx))
+    if not re.search(r"ERROR_string\s*\+\+", nx):
+        raise ValueError("ERROR_nexterror: step over the terminator not recognised")
     # warning classes (ERRORset_warning)
     tab = re.search(r"static\s+struct\s+Error_\s+LibErrors\s*\[\s*\]\s*=\s*\{(.*?)\n\};", t, re.S)
     if not tab:
@@ -230,7 +233,7 @@ def errors(repo):
             raise ValueError(f"{rel}: success() should have exactly one literal return")
         hooks += hk
     return dict(env=env, heap=heap, alloc=alloc, span=span, bounded=bounded, clamp=clamp, space_guard=space_guard,
-                count_guard=count_guard, next_guard=next_guard, ents=ents, name_guard=name_guard,
+                count_guard=count_guard, next_guard=next_guard, next_writes=next_writes, ents=ents, name_guard=name_guard,
                 fail=int(mf[0]), succeed=int(ms[0]), usage=usage, hooks=hooks)
 
 
@@ -593,7 +596,7 @@ def extract(repo):
     A("def errCfg : ErrCfg := {")
     A(f"  maxErrors := {e['env']['ERROR_MAX_ERRORS']}, maxSpace := {e['env']['ERROR_MAX_SPACE']}, maxStrlen := {e['env']['ERROR_MAX_STRLEN']},")
     A(f"  heapSize := {e['heap']}, allocated := {e['alloc']}, span := {e['span']},")
-    A(f"  boundedPrint := {str(e['bounded']).lower()}, clampOnTruncation := {str(e['clamp']).lower()}, nextGuard := {str(e['next_guard']).lower()},")
+    A(f"  boundedPrint := {str(e['bounded']).lower()}, clampOnTruncation := {str(e['clamp']).lower()}, nextGuard := {str(e['next_guard']).lower()}, nextWrites := {e['next_writes']},")
     sgd_ = e["space_guard"]
     A(f"  spaceGuard := {_opt(None if sgd_ is None else f'({sgd_[0]}, {sgd_[1]})')}, countGuard := {_opt(e['count_guard'])} }}")
     A("")
